@@ -110,8 +110,8 @@ type rnode struct {
 	core zapcore.Core
 	leaf int // leaf index (leaves)
 	hook int // hook index (kHooks)
-	// spent (kOnce): the sampler has already let its first entry through
-	spent bool
+	// seen (kOnce): sampled entries per named level so far (one message, one tick)
+	seen [7]int
 }
 
 type sink struct {
@@ -178,6 +178,13 @@ type rt struct {
 var jsonCfg = zapcore.EncoderConfig{MessageKey: "m", LevelKey: "l", EncodeLevel: zapcore.LowercaseLevelEncoder, LineEnding: "\n"}
 
 var fixedTime = time.Unix(1700000000, 0)
+
+// fixedClock gives every entry the same timestamp, so all calls on one tree
+// fall into one sampling window.
+type fixedClock struct{}
+
+func (fixedClock) Now() time.Time                         { return fixedTime }
+func (fixedClock) NewTicker(d time.Duration) *time.Ticker { return time.NewTicker(d) }
 
 func (t *rt) enabler(e int) zapcore.LevelEnabler {
 	switch e {
@@ -291,7 +298,7 @@ func newRT(rp *reporter, n *node, init int8, logOnly bool) (t *rt, ok bool) {
 }
 
 func (t *rt) opts() []zap.Option {
-	return []zap.Option{zap.WithFatalHook(termHook{&t.term}), zap.WithPanicHook(termHook{&t.term}), zap.ErrorOutput(t.errOut), zap.AddStacktrace(noStack)}
+	return []zap.Option{zap.WithFatalHook(termHook{&t.term}), zap.WithPanicHook(termHook{&t.term}), zap.ErrorOutput(t.errOut), zap.AddStacktrace(noStack), zap.WithClock(fixedClock{})}
 }
 
 func (t *rt) mkLoggers(l *zap.Logger) {
